@@ -9,4 +9,5 @@ let () =
   | _ :: "parseq-check" :: _ -> Parseq_suite.run ()
   | _ :: "async-check" :: _ -> Async_suite.run ()
   | _ :: "pool-check" :: _ -> Pool_suite.run ()
+  | _ :: "cells-check" :: _ -> Cells_suite.run ()
   | _ -> prerr_endline "usage: driver <suite>-check < lines"; exit 2
